@@ -19,7 +19,7 @@ CLAIMED = {
  'C16': ('address snapshots and allocator-event counters around every operation', '4 C16'),
  'C17': ('every allocation of every allocating operation fails in turn over sampled states; ledger + lifetime + validity oracles', '4 C17'),
  'C18': ('every way of being empty x applicable operations under guard pages and plausible junk in unwritten bookkeeping', '4 C18'),
- 'C19': ('seeded schedules of up to 16 reader tasks over shared vectors/elements; any write from a const path is detected by page protection', '4 C19'),
+ 'C19': ('seeded schedules of up to 16 reader tasks over shared vectors/elements; any write from a const path is detected by page protection and (TSan flavour, real threads released one at a time) as a data race; allocation failures and throwing value copy constructors are injected into copies of the shared objects', '4 C19'),
 }
 checks = []
 for pid, (text, ref) in CLAIMED.items():
@@ -32,7 +32,7 @@ for pid, (text, ref) in CLAIMED.items():
         'replay_cmd_template': './check replay {path}',
         'engine': 'contiguous-dsim',
         'level_claimed': {'category': level, 'text': text + '. Seeded sampling over histories x environments x configurations: a clean batch is evidence, not proof.', 'design_ref': 'DESIGN.md section ' + ref},
-        'level_note': 'trusted base: the harness (sim/*.hpp, reference model, SimHeap ledger), g++/clang, the kernel mmap/mprotect semantics; the interpreter enforces the documented preconditions; value types and source iterators never throw',
+        'level_note': 'trusted base: the harness (sim/*.hpp, reference model, SimHeap ledger), g++/clang, the kernel mmap/mprotect semantics; the interpreter enforces the documented preconditions; value types throw only in C19 (F10, copies of shared objects); source iterators never throw',
         'technique': 'deterministic simulation with fault injection (seeded allocator environment + operation histories, reference model oracle)',
     })
 m = {
